@@ -35,6 +35,20 @@ Theorem C09_frame_stream_truncated : forall max ms chunks tl,
   Forall (sendable max) ms -> concat chunks ++ tl = stream_of ms ->
   exists ms1 ms2 rest, ms = ms1 ++ ms2 /\ feed_chunks max [] chunks = (ms1, rest, false).
 Proof. exact frame_stream_truncated. Qed.
+(** ... with the exact account of the buffer: what was fed is the frames of the delivered messages
+    followed by [rest]; [rest] is empty or a strict prefix of the next frame (so also 1-3 bytes of a
+    length header); at end of stream an error is reported exactly when the cut was not at a frame
+    boundary *)
+Theorem C09_truncated_stream_rest : forall max ms chunks tl,
+  Forall (sendable max) ms -> concat chunks ++ tl = stream_of ms ->
+  exists ms1 ms2 rest, ms = ms1 ++ ms2 /\ feed_chunks max [] chunks = (ms1, rest, false) /\
+    concat chunks = stream_of ms1 ++ rest /\
+    (match ms2 with
+     | [] => rest = []
+     | m :: _ => exists k, (k < length (frame (enc_cmsg m)))%nat /\ rest = firstn k (frame (enc_cmsg m))
+     end) /\
+    (eof_error rest = true <-> concat chunks <> stream_of ms1).
+Proof. exact frame_stream_truncated_rest. Qed.
 Theorem C09_truncated_frame_needs_more : forall max payload k,
   N.of_nat (length payload) <= max -> N.of_nat (length payload) < 2 ^ 32 ->
   (k < length (frame payload))%nat -> frame_decode max (firstn k (frame payload)) = NeedMore.
@@ -89,3 +103,4 @@ Print Assumptions C09_byte_order_is_numeric_order.
 Print Assumptions C09_value_determines_bytes.
 Print Assumptions C09_32_bytes_within_bound.
 Print Assumptions C09_decoded_entries_well_formed.
+Print Assumptions C09_truncated_stream_rest.
